@@ -48,7 +48,7 @@ func init() {
 		run:    runC09,
 		rule: "c09.value: PRNG values of the harness schema (nested structs, all integer widths within +-2^53, finite floats, valid-UTF-8 strings incl. YAML-significant and non-ASCII ones, byte slices, string slices, maps, pointers, nil and empty values; record.Meta and a hand-written GenCode type; raw byte slices) x formats {JSON,CBOR,MsgPack,YAML,GenCode,RAW,AUTO} the value is representable in x compression {none,GZIP,AUTO}; " +
 			"c09.http: value x format x Accept header from a media-type grammar (supported, alias, wildcard and unsupported ranges, parameters, q-values, case, optional whitespace), request and response direction; " +
-			"c09.bytes: truncations / bit flips / splices of valid dumps, identifier-prefixed random bytes, gzip-wrapped garbage, decoder length-header attacks, random bytes (<= 4 KiB) into 7 target types through Load, LoadAsFormat, DecompressAndLoad, MimeLoad. " +
+			"c09.bytes: truncations / bit flips / splices of valid dumps, identifier-prefixed random bytes, gzip-wrapped garbage, well-formed compressed streams (bare, identified, nested, multi-member, four encodings) around empty / identifier-only / attack / truncated content, decoder length-header attacks, random bytes (<= 4 KiB) into 7 target types through Load, LoadAsFormat, DecompressAndLoad, MimeLoad. " +
 			"distinct = distinct (class,input) pairs; non-trivial = at least one dump succeeded and its load was compared (value/http) or at least one entry point returned (bytes)",
 		finish: func(cfg vlib.Cfg, r *vlib.Report) {
 			r.Floor(r.Counter("roundtrips") >= int64(cfg.N(20000, 150000)), "roundtrips=%d", r.Counter("roundtrips"))
@@ -1256,10 +1256,22 @@ func c09Bytes(c *ctx, in []byte) {
 			_, err := dsd.Load(exact(in), tg.fresh())
 			check(err)
 		})
-		do("DecompressAndLoad:"+fGz+":"+tg.name, func() {
-			_, err := dsd.DecompressAndLoad(exact(in), dsd.GZIP, tg.fresh())
-			check(err)
-		})
+		for _, comp := range c09Compressions() {
+			comp := comp
+			do("DecompressAndLoad:"+fGz+":"+tg.name, func() {
+				_, err := dsd.DecompressAndLoad(exact(in), comp, tg.fresh())
+				check(err)
+			})
+		}
+		if ti == 0 {
+			for _, comp := range []uint8{dsd.AUTO, dsd.JSON, 255} {
+				comp := comp
+				do("DecompressAndLoad-"+c09Name(comp)+":"+fGz+":"+tg.name, func() {
+					_, err := dsd.DecompressAndLoad(exact(in), comp, tg.fresh())
+					check(err)
+				})
+			}
+		}
 		// the same bytes without identifier through the explicit-format and mime entry points
 		for _, f := range []uint8{dsd.JSON, dsd.CBOR, dsd.MsgPack, dsd.YAML, dsd.GenCode} {
 			f := f
@@ -1474,6 +1486,71 @@ func c09RunHostile(c *ctx, inputs [][]byte) {
 	}
 }
 
+// c09Compressions lists the compression ids the library itself accepts (asked through
+// ValidateCompressionFormat, so a new compression format is picked up without an edit).
+func c09Compressions() []uint8 {
+	var out []uint8
+	for id := 1; id < 256; id++ {
+		if v, ok := dsd.ValidateCompressionFormat(uint8(id)); ok && v == uint8(id) {
+			out = append(out, uint8(id))
+		}
+	}
+	return out
+}
+
+// c09Compress makes a well-formed compressed stream of b for a compression id with the
+// standard library (nil if the harness has no coder for that id).
+func c09Compress(comp uint8, b []byte, level int) []byte {
+	switch comp {
+	case dsd.GZIP:
+		var buf bytes.Buffer
+		zw, err := gzip.NewWriterLevel(&buf, level)
+		if err != nil {
+			return nil
+		}
+		_, _ = zw.Write(b)
+		_ = zw.Close()
+		return buf.Bytes()
+	}
+	return nil
+}
+
+// c09Wrapped returns "valid wrapper around hostile content" inputs for one content: per
+// compression id the bare well-formed stream (the form DecompressAndLoad takes) and the
+// identified blob (the form Load takes), in several encodings of the same content, plus
+// the content wrapped twice (compressed blob inside a compressed blob).
+func c09Wrapped(content []byte, r *vlib.Rand) [][]byte {
+	var out [][]byte
+	levels := []int{gzip.BestSpeed, gzip.NoCompression, gzip.BestCompression, gzip.HuffmanOnly}
+	for _, comp := range c09Compressions() {
+		lv := levels
+		if r != nil { // PRNG part: one encoding per content
+			lv = []int{levels[r.Intn(len(levels))]}
+		}
+		for _, level := range lv {
+			z := c09Compress(comp, content, level)
+			if z == nil {
+				continue
+			}
+			out = append(out, z, append([]byte{comp}, z...))
+			if level == lv[0] {
+				// nested: the identified blob as the content of another well-formed stream
+				z2 := c09Compress(comp, append([]byte{comp}, z...), level)
+				out = append(out, z2, append([]byte{comp}, z2...))
+				// multi-member stream: two well-formed streams back to back
+				out = append(out, append([]byte{comp}, append(append([]byte{}, z...), z...)...))
+			}
+		}
+	}
+	keep := out[:0]
+	for _, o := range out {
+		if len(o) <= 4096 { // never cut a wrapper: it must stay well-formed
+			keep = append(keep, o)
+		}
+	}
+	return keep
+}
+
 func c09Gzip(b []byte) []byte {
 	var buf bytes.Buffer
 	zw, _ := gzip.NewWriterLevel(&buf, gzip.BestSpeed)
@@ -1588,7 +1665,20 @@ func runC09(c *ctx) {
 	}
 	limited := c.spec.Kind == "plain" || c.spec.Kind == "checkptr"
 	var hostile [][]byte
-	add := func(in []byte) { hostile = append(hostile, append([]byte{}, c09Cap(in)...)) }
+	rwrap := c.rand("wrap")
+	wrapping := false
+	var add func(in []byte)
+	add = func(in []byte) {
+		hostile = append(hostile, append([]byte{}, c09Cap(in)...))
+		if !wrapping && limited && len(in) <= 2048 && rwrap.Chance(1, 4) {
+			wrapping = true
+			ws := c09Wrapped(in, rwrap)
+			if len(ws) > 0 {
+				add(ws[rwrap.Intn(len(ws))])
+			}
+			wrapping = false
+		}
+	}
 	if s == 0 {
 		add(nil)
 		for id := 0; id < 256; id++ {
@@ -1597,6 +1687,38 @@ func runC09(c *ctx) {
 		}
 	}
 	if s == 0 && limited {
+		// valid wrapper around hostile content: nothing, a lone identifier byte of every id,
+		// every attack blob, every truncation of some valid dumps
+		for _, w := range c09Wrapped(nil, nil) {
+			add(w)
+		}
+		rw := vlib.NewRand(c.spec.Seed, "C09/wrapped", 0)
+		for id := 0; id < 256; id++ {
+			enc := rw // one encoding for most ids, all four for the ids dsd knows
+			if _, known := c09FmtName[uint8(id)]; known || id == 255 || id == 128 {
+				enc = nil
+			}
+			for _, w := range c09Wrapped([]byte{byte(id)}, enc) {
+				add(w)
+			}
+		}
+		for _, a := range c09Attacks {
+			for _, w := range c09Wrapped(a, rw) {
+				add(w)
+			}
+		}
+		for k := 0; k < 6; k++ {
+			d := c09Cap(c09ValidDump(rw))
+			step := 1
+			if len(d) > 40 {
+				step = len(d) / 40
+			}
+			for n := 0; n < len(d); n += step {
+				for _, w := range c09Wrapped(d[:n], rw) {
+					add(w)
+				}
+			}
+		}
 		for _, a := range c09Attacks {
 			add(a)
 			if len(a) > 1 {
